@@ -41,7 +41,20 @@ impl StreamChunks for CustomSource {
     on_source: OnSource<'_, 'a>,
     on_name: OnName<'_, 'a>,
   ) -> GeneratedInfo {
-    stream_chunks_default(self.text.as_str(), self.map.as_ref(), options, on_chunk, on_source, on_name)
+    // schedule points of a user-defined source: on entry and before every chunk it forwards
+    let id = self as *const Self as usize;
+    rspack_sources::verif::emit(rspack_sources::verif::Event::Access, "custom.stream.begin", id, false);
+    stream_chunks_default(
+      self.text.as_str(),
+      self.map.as_ref(),
+      options,
+      &mut |c, m| {
+        rspack_sources::verif::emit(rspack_sources::verif::Event::Access, "custom.stream.chunk", id, false);
+        on_chunk(c, m)
+      },
+      on_source,
+      on_name,
+    )
   }
 }
 
